@@ -1890,6 +1890,12 @@ struct Value {
                                 continue;
                             }
 
+                            if ((obj_item != nullptr) && (obj_item->Hash == 0)) {
+                                // A removed entry is not a member: skip it.
+                                ++obj_item;
+                                continue;
+                            }
+
                             return false;
                         }
 
